@@ -86,6 +86,45 @@ def assignPrim (f : FieldInfo) (obj : GoVal) (rd : Outcome GoVal) (v : Bool × S
     if parentIsNil f obj then .ok (true, v.2) else assign
   else assign
 
+/-- `v, ok := tf.Attrs[name].(ElemValueType)` succeeded: the existing value's (Null, payload) -/
+def primStart (k : PrimK) (cur : Option TfVal) : Outcome ((Bool × Sc) × List Diag) :=
+  match cur with
+  | some (.prim k' _ n p) => if k' == k then .ok ((n, p), []) else .stuck "absent"
+  | _ => .stuck "absent"
+
+/-- `genZeroValue`: the assertion failed, a null value of the attribute / element type `t` is made and its
+`Null` computed from the source -/
+def primFresh (f : FieldInfo) (k : PrimK) (obj : GoVal) (t : Option TfTy) (rd : Outcome GoVal) :
+    Outcome ((Bool × Sc) × List Diag) :=
+  -- i, err := t.ValueFromTerraform(ctx, tftypes.NewValue(t.TerraformType(ctx), nil))
+  match t with
+  | none => .panic "nil-deref"
+  | some ty =>
+    match nullOfTy ty with
+    | none => .stuck "ValueFromTerraform of an unmodelled type"
+    | some i =>
+      -- v, ok = i.(ElemValueType)
+      let (p, ds) : Sc × List Diag :=
+        match i with
+        | .prim k' _ _ p => if k' == k then (p, []) else (k.zeroSc, [Diag.writeConv f.path f.tf.elemValueType])
+        | _ => (k.zeroSc, [Diag.writeConv f.path f.tf.elemValueType])
+      if f.isPlaceholder then .ok ((true, p), ds)
+      else if f.tf.zeroValue != "" then
+        -- v.Null = [obj.<Parent> == nil ||] <ValueCastToType>(field) == <ZeroValue>
+        if f.parentIsOptionalEmbed && parentIsNil f obj then .ok ((true, p), ds) else
+        match rd with
+        | .ok (.sc s) =>
+          match f.castTo s with
+          | some c =>
+            match eqLiteral f.tf.zeroValue c with
+            | some b => .ok ((b, p), ds)
+            | none => .stuck "zero literal not modelled"
+          | none => .stuck "cast not modelled"
+        | .ok _ => .stuck "zero test on a non-scalar"
+        | .panic w => .panic w
+        | .stuck w => .stuck w
+      else .ok ((false, p), ds)
+
 /-- `genPrimitiveBody`: returns the value to store and the diagnostics to append.
 `cur` = `tf.Attrs[<NameSnake>]` of the enclosing object, `t` = the attribute / element type. -/
 def primBody (f : FieldInfo) (obj : GoVal) (cur : Option TfVal) (t : Option TfTy) (rd : Outcome GoVal) :
@@ -93,47 +132,8 @@ def primBody (f : FieldInfo) (obj : GoVal) (cur : Option TfVal) (t : Option TfTy
   match vkindOf f.tf.elemValueType with
   | .prim k =>
     -- v, ok := tf.Attrs[name].(ElemValueType)
-    let start : Outcome ((Bool × Sc) × List Diag) :=
-      match cur with
-      | some (.prim k' _ n p) =>
-        if k' == k then .ok ((n, p), []) else
-          .stuck "unreachable"
-      | _ => .stuck "absent"
-    let start : Outcome ((Bool × Sc) × List Diag) :=
-      match cur, start with
-      | some (.prim k' _ _ _), .ok r => if k' == k then .ok r else .stuck "absent"
-      | _, r => r
-    let fresh : Outcome ((Bool × Sc) × List Diag) :=
-      -- i, err := t.ValueFromTerraform(ctx, tftypes.NewValue(t.TerraformType(ctx), nil))
-      match t with
-      | none => .panic "nil-deref"
-      | some ty =>
-        match nullOfTy ty with
-        | none => .stuck "ValueFromTerraform of an unmodelled type"
-        | some i =>
-          -- v, ok = i.(ElemValueType)
-          let (p, ds) : Sc × List Diag :=
-            match i with
-            | .prim k' _ _ p => if k' == k then (p, []) else (k.zeroSc, [Diag.writeConv f.path f.tf.elemValueType])
-            | _ => (k.zeroSc, [Diag.writeConv f.path f.tf.elemValueType])
-          if f.isPlaceholder then .ok ((true, p), ds)
-          else if f.tf.zeroValue != "" then
-            -- v.Null = [obj.<Parent> == nil ||] <ValueCastToType>(field) == <ZeroValue>
-            if f.parentIsOptionalEmbed && parentIsNil f obj then .ok ((true, p), ds) else
-            match rd with
-            | .ok (.sc s) =>
-              match f.castTo s with
-              | some c =>
-                match eqLiteral f.tf.zeroValue c with
-                | some b => .ok ((b, p), ds)
-                | none => .stuck "zero literal not modelled"
-              | none => .stuck "cast not modelled"
-            | .ok _ => .stuck "zero test on a non-scalar"
-            | .panic w => .panic w
-            | .stuck w => .stuck w
-          else .ok ((false, p), ds)
     let isCur : Bool := match cur with | some (.prim k' _ _ _) => k' == k | _ => false
-    let v0 := if isCur then start else fresh
+    let v0 := if isCur then primStart k cur else primFresh f k obj t rd
     match v0 with
     | .ok (np, ds) =>
       match assignPrim f obj rd np with
